@@ -885,7 +885,7 @@ def demux_drop_native_replay(v):
          f'    let raw: Vec<u8> = vec!{raw}; let mut bad: Vec<String> = Vec::new(); GOT.lock().unwrap().clear();']
     if layer == 'udp':
         L.append(f'    let udp = machine.protocol::<Udp>().unwrap(); udp.listen(TypeId::of::<Rec<0>>(), Endpoint::new(Ipv4Address::from(0u32), {g("bport") & 0xffff}), machine.clone()).unwrap();')
-        L.append(f'    let iph = Ipv4Header {{ ihl: 5, type_of_service: TypeOfService::from(0u8), total_length: {20 + n}, identification: 1, fragment_offset: 0, flags: ControlFlags::new(true, true), time_to_live: 9, protocol: 17, checksum: 0, source: Ipv4Address::from({g("src") & 0xffffffff}u32), destination: Ipv4Address::from({g("dst") & 0xffffffff}u32) }};')
+        L.append(f'    let iph = Ipv4Header {{ ihl: 5, type_of_service: TypeOfService::from(0u8), total_length: {max(20, g("iptl", 20 + n) & 0xffff)}, identification: 1, fragment_offset: 0, flags: ControlFlags::new(true, true), time_to_live: 9, protocol: 17, checksum: 0, source: Ipv4Address::from({g("src") & 0xffffffff}u32), destination: Ipv4Address::from({g("dst") & 0xffffffff}u32) }};')
         L.append('    let mut control = Control::new(); control.insert(iph);')
         L.append('    let r = std::panic::catch_unwind(std::panic::AssertUnwindSafe(|| crate::Protocol::demux(&*udp, Message::new(raw.clone()), Arc::new(Dummy), control, machine.clone())));')
         L.append('    let wellformed = raw.len() >= 8 && (((raw[4] as usize) << 8) | raw[5] as usize) == raw.len() && raw[6] == 0 && raw[7] == 0;')
